@@ -45,7 +45,7 @@ def directed(rng: random.Random) -> dict:
     body: list = [{"k": "org", "e": E(rng.choice([0x8000, 0x018000, 0xC08000 if False else 0x028123]))}]
     kind = rng.choice(["shadow_chain", "sibling_reuse", "qualified_forward", "qualified_backward", "leak_inner", "leak_sibling", "leak_macro",
                        "leak_loop", "symbol_kinds", "named_in_named", "macro_local_vs_outer", "shadow_unsized", "block_if_label", "named_in_loop", "named_in_macro",
-                       "const_shadowed_by_later_inner", "symbol_kinds_unsized", "parameter_names_at_call_site"])
+                       "const_shadowed_by_later_inner", "symbol_kinds_unsized", "parameter_names_at_call_site", "application_expanding_to_nothing"])
     expect_reject = False
     nop = {"k": "ins", "m": "nop", "shape": "imp", "sz": "", "e": None}
     if kind == "shadow_chain":
@@ -110,6 +110,17 @@ def directed(rng: random.Random) -> dict:
                  {"k": "assign", "n": "pa", "e": E(1)}, {"k": "assign", "n": "pb", "e": E(2)},
                  {"k": "call", "n": "pairm", "as": [E("pb"), E("pa")]}, {"k": "call", "n": "wrapm", "as": [E(0x11), E(0x22)]},
                  {"k": "for", "v": "pb", "a": E(0), "b": E(3), "body": [{"k": "call", "n": "pairm", "as": [E("pb", "+", 0x10), E("pb")]}]}]
+    elif kind == "application_expanding_to_nothing":
+        dbp = lambda *n: {"k": "data", "d": "db", "es": [E(x) for x in n]}  # noqa: E731
+        flag = rng.choice([0, 0, 1])
+        body += [{"k": "assign", "n": "tracef", "e": E(flag)},
+                 {"k": "macro", "n": "tracem", "ps": ["pv"], "b": [{"k": "if", "c": E("tracef"), "t": [dbp("pv")]}]},
+                 {"k": "macro", "n": "onlyc", "ps": ["pv"], "b": [{"k": "assign", "n": "tmpc", "e": E("pv")}]},
+                 {"k": "macro", "n": "putm", "ps": ["pv"], "b": [lab("herep"), dbp("pv"), dl("herep")]},
+                 {"k": "call", "n": rng.choice(["tracem", "onlyc"]), "as": [E(1)]}, {"k": "call", "n": "putm", "as": [E(0x22)]},
+                 {"k": "block", "b": [lab("inb"), {"k": "call", "n": "tracem", "as": [E(2)]}, {"k": "block", "b": [dl("inb"), lab("inb")]}, dl("inb")]},
+                 {"k": "for", "v": "itE", "a": E(0), "b": E(2), "body": [{"k": "call", "n": "onlyc", "as": [E("itE")]}, dbp("itE")]},
+                 {"k": "call", "n": "putm", "as": [E(0x33)]}]
     elif kind == "sibling_reuse":
         for i in range(rng.randint(2, 4)):
             body.append({"k": "block", "b": [dl("loop1"), lab("loop1"), nop, dl("loop1"), {"k": "block", "b": [dl("loop1")]}]})
